@@ -16,6 +16,11 @@ Theorem C15_1d_exact_real : forall (s e : R) (n : nat) (t : tree),
   admissible 1 t n -> run (prod1d Rops) t (root1d s e n) = Ok (seq1d Rops s e n).
 Proof. exact run1d_exact_real. Qed.
 
+(* 2'. for every carrier (binary64 included): any admissible tree on the 1-D producer yields exactly n items, no panic *)
+Theorem C15_1d_count_exact : forall T (O : ops T) (s e : T) (n : nat) (t : tree), admissible 1 t n ->
+  exists l, run (prod1d O) t (root1d s e n) = Ok l /\ length l = n.
+Proof. exact (@run1d_length). Qed.
+
 (* 3. the ExactSizeIterator::len contract, for every producer reachable by splitting *)
 Theorem C15_len :
   (forall T (O : ops T) x0 x1 nx y0 y1 ny t, admissible 0 t (nx * ny) ->
@@ -47,6 +52,11 @@ Theorem C15_collect :
   (forall (s e : R) n t, admissible 1 t n ->
      run_collect (prod1d Rops) t n (root1d s e n) = Ok (seq1d Rops s e n)).
 Proof. exact (conj (@collect2d_tree) collect1d_tree). Qed.
+
+(* every range evaluator has the form collect(map f (parallel grid)): under any split tree it returns f(point k) at position k *)
+Theorem C15_range_functions : forall T (O : ops T) x0 x1 nx y0 y1 ny B (f : T * T -> B) t, admissible 0 t (nx * ny) ->
+  run_collect (pmap f (prod2d O x0 x1 nx y0 y1 ny)) t (nx * ny) (root2d nx ny) = Ok (map f (seq2d O x0 x1 nx y0 y1 ny)).
+Proof. exact (fun T O x0 x1 nx y0 y1 ny B f t => range2d O x0 x1 nx y0 y1 ny f t). Qed.
 
 (* 5. any tree-shaped map-reduce in a monoid equals the sequential left fold (exact; the 1e-12 float clause is measured) *)
 Theorem C15_reduce : forall B (op : B -> B -> B) (e0 : B),
@@ -82,10 +92,12 @@ Proof. cbn. repeat split; lia. Qed.
 
 Print Assumptions C15_2d_exact.
 Print Assumptions C15_1d_exact_real.
+Print Assumptions C15_1d_count_exact.
 Print Assumptions C15_len.
 Print Assumptions C15_par_len.
 Print Assumptions C15_enumerate.
 Print Assumptions C15_collect.
+Print Assumptions C15_range_functions.
 Print Assumptions C15_reduce.
 Print Assumptions C15_reduce_real_monoids.
 Print Assumptions C15_bridge_trees_admissible.
